@@ -280,7 +280,7 @@ def run(ctx):
                 hists.append((u, 'set', ['e'], list(seq), 'exhaustive'))
             for seq in itertools.product(['u0:0', 'u1:1', 'u2:2', 'd0', 'd1', 'd2', 'M1'], repeat=5):
                 hists.append((u, 'map', ['e'], list(seq), 'exhaustive'))
-        ctx.extra['exhaustive'] = 'all 6^5 set histories and all 7^5 map histories (UPDATE insert/remove of 3 keys, MAP) for key types int and pair int int'
+        ctx.extra['exhaustive_subspace'] = 'all 6^5 set histories and all 7^5 map histories (UPDATE insert/remove of 3 keys, MAP) for key types int and pair int int'
 
     lines = []
     for u, kind, start, ops, _ in hists:
